@@ -24,6 +24,31 @@ pub fn kern(subtables: &[KernSubtable]) -> Vec<u8> {
 }
 
 // ---------------------------------------------------------------------------------------------
+// feat
+
+/// 'feat' version 1.0: header (12 bytes), one 12-byte feature name record per entry, then the
+/// setting name arrays (4 bytes per setting); offsets are from the start of the table.
+pub fn feat(f: &Feat) -> Vec<u8> {
+    let mut o = Obj::new();
+    o.u32(0x0001_0000).count(f.names.len(), "feat names").u16(0).u32(0);
+    let mut off = 12 + 12 * f.names.len();
+    for (i, n) in f.names.iter().enumerate() {
+        let flags: u16 = if n.exclusive { 0x8000 } else { 0 } | match n.default_index {
+            Some(d) => 0x4000 | d as u16,
+            None => 0,
+        };
+        o.u16(n.feature).count(n.settings.len(), "feat settings").u32(off as u32).u16(flags).u16(256 + i as u16);
+        off += 4 * n.settings.len();
+    }
+    for (i, n) in f.names.iter().enumerate() {
+        for (j, s) in n.settings.iter().enumerate() {
+            o.u16(*s).u16(300 + (i * 16 + j) as u16);
+        }
+    }
+    o.data
+}
+
+// ---------------------------------------------------------------------------------------------
 // AAT lookup tables
 
 #[derive(Clone, Copy, PartialEq, Eq)]
